@@ -231,7 +231,7 @@ func (p *storeProp) Gen(r *Rand, tier string, idx int) any {
 			return sp
 		}
 	}
-	if p.id == "C09" && r.Chance(0.12) {
+	if (p.id == "C09" && r.Chance(0.12)) || ((p.id == "C07" || p.id == "C08") && r.Chance(0.08)) {
 		if sp := p.genGCRace(r); sp != nil {
 			return sp
 		}
